@@ -10,6 +10,7 @@
 (*   RtSerOmit(tree, D)  == RtSer(OtFilter(RtWalk(tree), D)): the same with the optional-tags  *)
 (*                       filter of spec/OptionalTags.tla; D = {} is the intended filter         *)
 (*   RtParse(src)        the parser specification (Pipeline!ParseDoc, scripting off)            *)
+(*   RtParseAfter(h, src) the same on a parser object that parsed the documents h before        *)
 (*   RtSame(a, b, alpha, minb)  tree equality up to the two licensed normalisations:            *)
 (*        alpha: the alphabetical_attributes option sorts attributes, so attribute lists are     *)
 (*               compared as sorted lists;                                                       *)
@@ -100,6 +101,13 @@ RtSerOmit(tree, D) == RtSer(OT!OtFilter(RtWalk(tree), D))
 
 \* ---- parse ----
 RtParse(src) == Result(ParseDoc(src, FALSE))
+\* The same through a LONG-LIVED parser object that handled `history` before (a sequence of earlier, unrelated, possibly
+\* non-conforming documents / fragments, each recorded as a code-point description "doc:..." / "frag(container):..."):
+\* parsing starts from PInit for every document, so nothing of an earlier document - its document mode (quirks), open
+\* elements, active formatting elements, form / head pointers, tokenizer state, pending table text - may reach the next
+\* one.  The specification's answer therefore does not depend on the history (the history-independence clause of C12,
+\* restated here because the round trip of C07 is normally run on such an object).
+RtParseAfter(history, src) == RtParse(src)
 
 \* ---- comparison up to the licensed normalisations ----
 RtNsRank(ns) == CASE ns = "" -> 0 [] ns = "xlink" -> 1 [] ns = "xml" -> 2 [] ns = "xmlns" -> 3 [] OTHER -> 4
